@@ -44,6 +44,38 @@ def stores(f):
     return out
 
 
+def options_reset_rules(prog, cg, reach, rep):
+    """how the non-orthogonal options are replaced on a regrid (also a premise of C14.R4: the
+    options the writer records are the ones the regions were spaced with)"""
+    # the only option object written: nonorthogonal_options, via the reset methods
+    wr = []
+    for k in sorted(reach):
+        f = cg.funcs[k]
+        for n in stores(f).get("nonorthogonal_options", []):
+            wr.append(f.qualname)
+    rep.ob("R1", "the non-orthogonal options are replaced only by the two reset methods", sorted(set(wr)) == ["Equilibrium.resetNonorthogonalOptions", "EquilibriumRegion.resetNonorthogonalOptions"], EQ, str(wr), key="write/nonorth")
+    for qn in ("Equilibrium.resetNonorthogonalOptions", "EquilibriumRegion.resetNonorthogonalOptions"):
+        f = prog.func(EQ, qn)
+        ok = K("self.nonorthogonal_options=self.nonorthogonal_options_factory.create(nonorthogonal_settings)") in T(f.module, f.node)
+        rep.ob("R1", "%s rebuilds the options from the factory defaults plus the given settings only (no merge with the previous values)" % qn, ok, f.site(), "", key="reset/" + qn)
+    f = prog.func(EQ, "Equilibrium.resetNonorthogonalOptions")
+    ok = K("forregioninself.regions.values():region.resetNonorthogonalOptions(dict(self.nonorthogonal_options))") in T(f.module, f.node)
+    rep.ob("R1", "the equilibrium propagates the evaluated options to every region", ok, f.site(), "", key="reset/propagate")
+    # one factory: the equilibrium's per-instance factory (its defaults are derived from the
+    # user options) is the one the regions use, on the first build and on every reset
+    ei = prog.func(EQ, "Equilibrium.__init__")
+    ok = any(isinstance(s_, ast.Assign) and any(is_self_attr(t, "nonorthogonal_options_factory") for t in s_.targets) and isinstance(s_.value, ast.Call)
+             and T(ei.module, s_.value.func) == "self.nonorthogonal_options_factory.add" for s_ in walk_own(ei.node))
+    rep.ob("R1", "the equilibrium builds a per-instance non-orthogonal factory whose defaults follow the user options", ok, ei.site(), "", key="reset/factory/equilibrium")
+    ri = prog.func(EQ, "EquilibriumRegion.__init__")
+    body = sorted((s_ for s_ in walk_own(ri.node) if isinstance(s_, ast.Assign)), key=lambda s_: s_.lineno)
+    bind = [s_ for s_ in body if any(is_self_attr(t, "nonorthogonal_options_factory") for t in s_.targets)]
+    use = [s_ for s_ in body if isinstance(s_.value, ast.Call) and T(ri.module, s_.value.func) == "self.nonorthogonal_options_factory.create"]
+    ok = len(bind) == 1 and T(ri.module, bind[0].value) == "self.equilibrium.nonorthogonal_options_factory" and bool(use) and bind[0].lineno < use[0].lineno
+    rep.ob("R1", "a region takes the equilibrium's per-instance factory before it first evaluates options (so a later reset resolves unset keys exactly as the first build did)", ok,
+           ri.site(bind[0]) if bind else ri.site(), "" if ok else "no `self.nonorthogonal_options_factory = self.equilibrium.nonorthogonal_options_factory` before the first create(): the class-level factory (fixed defaults) would be used by resets", key="reset/factory/region")
+
+
 def run(rep, tier):
     prog = Program()
     cg = CallGraph(prog)
@@ -68,20 +100,7 @@ def run(rep, tier):
     for f, n, a in bad:
         rep.ob("R1", "%s (reachable from redistribution) does not store to .%s" % (f.qualname, a), False, f.site(n), T(f.module, n)[:100], key="write/%s/%s" % (f.qualname, a))
     rep.ob("R1", "no function reachable from the redistribution entry point stores to user_options or an options factory (%d functions)" % len(reach), not bad, MESH, "", key="write/none")
-    # the only option object written: nonorthogonal_options, via the reset methods
-    wr = []
-    for k in sorted(reach):
-        f = cg.funcs[k]
-        for n in stores(f).get("nonorthogonal_options", []):
-            wr.append(f.qualname)
-    rep.ob("R1", "the non-orthogonal options are replaced only by the two reset methods", sorted(set(wr)) == ["Equilibrium.resetNonorthogonalOptions", "EquilibriumRegion.resetNonorthogonalOptions"], EQ, str(wr), key="write/nonorth")
-    for qn in ("Equilibrium.resetNonorthogonalOptions", "EquilibriumRegion.resetNonorthogonalOptions"):
-        f = prog.func(EQ, qn)
-        ok = K("self.nonorthogonal_options=self.nonorthogonal_options_factory.create(nonorthogonal_settings)") in T(f.module, f.node)
-        rep.ob("R1", "%s rebuilds the options from the factory defaults plus the given settings only (no merge with the previous values)" % qn, ok, f.site(), "", key="reset/" + qn)
-    f = prog.func(EQ, "Equilibrium.resetNonorthogonalOptions")
-    ok = K("forregioninself.regions.values():region.resetNonorthogonalOptions(dict(self.nonorthogonal_options))") in T(f.module, f.node)
-    rep.ob("R1", "the equilibrium propagates the evaluated options to every region", ok, f.site(), "", key="reset/propagate")
+    options_reset_rules(prog, cg, reach, rep)
     # refusal of orthogonal meshes dominates the region loop
     rp = cg.funcs[root]
     body = rp.node.body
